@@ -12,7 +12,7 @@ T  random histories (length up to 200) and every raising subset of deferred batc
 """
 import os, sys, json, random, collections, itertools, time
 from fractions import Fraction
-from common import Check, VERIF, WORK
+from common import Check, VERIF, WORK, Hang, watchdog
 import tlc, tlaval
 import vtime
 
@@ -271,12 +271,22 @@ def replay_graph(chk, name, cname, c, **kw):
 
 
 # ---- T: code -> spec ------------------------------------------------------------------------------------
+HANGS = [0]
+
+
 def record_history(c, traises, fraises, ops):
+    if HANGS[0] >= 3:
+        return []           # the kernel hangs; three demonstrations are enough, do not burn 10 s per history
     rig = Rig(traises=traises, fraises=fraises, **c)
     evs = []
     for op, k, a in ops:
         try:
-            rig.apply(op, k, a)
+            with watchdog(10):
+                rig.apply(op, k, a)
+        except Hang:
+            HANGS[0] += 1
+            evs.append({"op": op, "k": k, "a": a, "st": rig.proj(), "hang": True})
+            break
         except RuntimeError as e:
             if op == "resume" and "task time is None" in str(e):
                 continue        # Resume is not enabled before the first installation (spec: due[k] # NONE)
@@ -312,6 +322,13 @@ def random_ops(rng, c, n, times=(0, 1, 2, 3, 4, 5), deltas=(0, 1, 2), steps=(0, 
 
 def validate_traces(chk, name, c, traces, label):
     """traces: list of dict(tid, traises, fraises, evs, ops).  Runs Trace_Kernel over all of them in one JVM."""
+    for t in traces:
+        if t["evs"] and t["evs"][-1].get("hang"):
+            ev = t["evs"].pop()
+            chk.violation("Terminates", {"step_op": ev["op"]},
+                          {"config": name, "what": "the kernel did not return from this step within 10 s", "event": ev,
+                           "ops": t["ops"][:len(t["evs"]) + 1]},
+                          {"kind": "history", "config": name, "traises": t["traises"], "fraises": t["fraises"], "ops": t["ops"]})
     if not traces:
         return
     wd = tlc.workdir("tr")
@@ -403,7 +420,16 @@ def recurring_float_grid(chk, rng, n_cases):
                     when = vt.tm.tasks[0][0]
                     # NeverEarly at float level: advance exactly to the deadline
                     vt.now = when
-                    core.run_once()
+                    if HANGS[0] >= 3:
+                        break
+                    try:
+                        with watchdog(10):
+                            core.run_once()
+                    except Hang:
+                        HANGS[0] += 1
+                        chk.violation("Terminates", {"where": "recurring"}, {"interval_ms": iv, "offset_ms": off, "base": base},
+                                      {"kind": "recurring", "interval_ms": iv, "offset_ms": off, "base": base})
+                        break
                     if not fires or len(fires) != steps:
                         chk.violation("RecurringSlots", {"kind": "missed_or_double"},
                                       {"interval_ms": iv, "offset_ms": off, "base": base, "fires": fires[-3:], "step": steps},
@@ -476,8 +502,15 @@ def core_run_loop(chk, rng, n):
                 vt.now = vt.tm.tasks[0][0]
         asyncore.loop = fake_loop
         core.asyncore.loop = fake_loop
+        if HANGS[0] >= 3:
+            break
         try:
-            core.run(sigterm=None, sigusr1=None)
+            with watchdog(10):
+                core.run(sigterm=None, sigusr1=None)
+        except Hang:
+            HANGS[0] += 1
+            chk.violation("Terminates", {"where": "core.run"}, {"times": times}, {"kind": "corerun", "times": times})
+            continue
         finally:
             asyncore.loop = real_loop
             core.asyncore.loop = real_loop
